@@ -91,3 +91,84 @@ func hofClosureResults(call *ssa.Call) []ssa.Value {
 	}
 	return out
 }
+
+// predMembership analyses a predicate closure handed to maps.DeleteFunc and the like: every return is
+// `set[k]` or `!set[k]` for the closure's first parameter k and one map[string]bool. It returns the map
+// value as seen in the enclosing function (the captured variable's binding) and whether the result is negated.
+func predMembership(fv ssa.Value) (set ssa.Value, negated, ok bool) {
+	var mc *ssa.MakeClosure
+	for _, src := range traceSources(fv) {
+		if m, isMC := src.(*ssa.MakeClosure); isMC {
+			mc = m
+		}
+	}
+	if mc == nil {
+		return nil, false, false
+	}
+	fn, isFn := mc.Fn.(*ssa.Function)
+	if !isFn || len(fn.Params) == 0 {
+		return nil, false, false
+	}
+	n := 0
+	good := true
+	core.EachInstr(fn, func(i ssa.Instruction) {
+		ret, isRet := i.(*ssa.Return)
+		if !isRet || len(ret.Results) != 1 {
+			return
+		}
+		n++
+		v := ret.Results[0]
+		neg := false
+		if u, isU := v.(*ssa.UnOp); isU && u.Op.String() == "!" {
+			v, neg = u.X, true
+		}
+		lk, isLk := v.(*ssa.Lookup)
+		if !isLk || lk.Index != fn.Params[0] {
+			good = false
+			return
+		}
+		// the map: a captured variable of the enclosing function
+		var m ssa.Value = lk.X
+		if ld, isLd := m.(*ssa.UnOp); isLd {
+			if fvr, isFV := ld.X.(*ssa.FreeVar); isFV {
+				for k, f := range fn.FreeVars {
+					if f == fvr && k < len(mc.Bindings) {
+						m = mc.Bindings[k]
+					}
+				}
+			}
+		}
+		if fvr, isFV := m.(*ssa.FreeVar); isFV {
+			for k, f := range fn.FreeVars {
+				if f == fvr && k < len(mc.Bindings) {
+					m = mc.Bindings[k]
+				}
+			}
+		}
+		if set != nil && (set != m || negated != neg) {
+			good = false
+		}
+		set, negated = m, neg
+	})
+	return set, negated, good && n > 0 && set != nil
+}
+
+// fromPkgCall: v is (a variable holding) the result of a call to a function of the analysed package.
+func (c *Ctx) fromPkgCall(v ssa.Value) *ssa.Function {
+	for _, src := range traceSources(v) {
+		// a captured variable's cell
+		if a, ok := src.(*ssa.Alloc); ok {
+			for _, sv := range cellStores(a) {
+				if f := c.fromPkgCall(sv); f != nil {
+					return f
+				}
+			}
+		}
+		if sc, ok := src.(*ssa.Call); ok {
+			if callee := sc.Call.StaticCallee(); callee != nil && c.P.InPkg(callee) {
+				return callee
+			}
+		}
+	}
+	return nil
+}
